@@ -50,7 +50,19 @@ def make_eval(exe, relexe):
             # lock, so such runs hang *inside the TSan runtime* after lbzip2 has decided to exit.  Race reports are
             # written as they happen, so a short timeout loses nothing.
             tmo = 25 if expect[0] == "rc1" else 600
-            if case["operand"] and sh["kind"] != "copy":
+            fed = None
+            if sh.get("fam") in ("garbage-tail", "exact-size", "multistream", "mid") and case["seed"] % 2:
+                # standard input is a pipe whose writer stalls in the middle: the reader thread sits in read() -- not
+                # on a mutex -- while the workers run ahead (and possibly finish parsing); whatever it touches first
+                # after read() returns has no ordering with what the workers did meanwhile
+                cut = max(1, len(data) * (1 + case["seed"] % 3) // 4)
+                fed = [(cut, 250), (len(data), 0)]
+            if env0.get("VERIF_STALL_AT"):
+                # stall right after the end of the valid stream: the parser can finish while the reader waits
+                fed = [(int(env0["VERIF_STALL_AT"]), 250), (len(data), 0)]
+            if fed:
+                r = core.run_fed(argv, data, fed, env=env, timeout=tmo)
+            elif case["operand"] and sh["kind"] != "copy":
                 r = core.run(argv + ["-k", "-c", inp], env=env, timeout=tmo, cwd=td)
             else:
                 r = core.run(argv, env=env, stdin_file=inp, timeout=tmo)
@@ -70,7 +82,7 @@ def make_eval(exe, relexe):
         stats.add(core.fp(sh, case["n"], case["seed"]), tinfo["workers"] >= 2,
                   [sh["kind"], "workers=%d" % case["n"], "fam=%s" % sh.get("fam", "-"),
                    "tasks-by->=2-workers" if tinfo["workers"] >= 2 else "single-worker-active"] +
-                  (["FILE-operand"] if case["operand"] else []),
+                  (["FILE-operand"] if case["operand"] else []) + (["stalling-pipe-input"] if fed else []),
                   {"shape": sh, "n": case["n"], "seed": case["seed"], "workers_active": tinfo["workers"]})
         if bad:
             return dict(case, what=bad)
@@ -78,13 +90,84 @@ def make_eval(exe, relexe):
     return ev
 
 
+# ---------------------------------------------------------------- second detector: helgrind
+#
+# ThreadSanitizer models read()/write() on inherited descriptors as acquire/release of one shared sync object, so a
+# reader thread that returns from read(0) is ordered after everything the writer thread did before its last write(1) --
+# and through it after the workers.  Unlocked accesses of the reader right after read() are therefore invisible to it.
+# Helgrind does not do that.  A few small cases (it is 20-50x slower) run under `valgrind --tool=helgrind` on the
+# assert-enabled gcc build, among them the ones where the reader sits in read() on a stalled pipe while the workers
+# finish.
+
+def helgrind_cases(seed, tier):
+    import random
+    r = random.Random(seed * 53 + 7)
+    out = []
+    k = 4 if tier == "quick" else 40
+    for i in range(k):
+        out.append({"hg": True, "shape": {"kind": "decompress", "blocks": r.randrange(1, 6), "fam": "garbage-tail",
+                                          "ing": r.choice([1024, 4096]), "outg": None, "seed": r.randrange(10**6)},
+                    "n": r.choice([2, 3, 4]), "stall": True})
+    for i in range(k):
+        out.append({"hg": True, "shape": {"kind": "decompress", "blocks": r.randrange(1, 5),
+                                          "fam": r.choice(["exact-size", "multistream", "tiny", "flood-runs"]),
+                                          "ing": r.choice([None, 1024]), "outg": r.choice([None, 5000]),
+                                          "seed": r.randrange(10**6)}, "n": r.choice([2, 3]), "stall": False})
+    for i in range(k):
+        out.append({"hg": True, "shape": {"kind": "compress", "chunks": r.randrange(1, 4), "tail": r.choice([0, 0, 777]),
+                                          "fam": r.choice(["text", "zeros", "rand"]), "seq": bool(i % 2),
+                                          "seed": r.randrange(10**6)}, "n": r.choice([2, 3]), "stall": bool(i % 2)})
+    for i in range(max(1, k // 2)):
+        out.append({"hg": True, "shape": {"kind": "copy", "size": r.choice([5, 65540, 131076, 200000]),
+                                          "seed": r.randrange(10**6)}, "n": 2, "stall": False})
+    return out
+
+
+def make_hg_eval(dbgexe, relexe):
+    def ev(case, stats):
+        sh = case["shape"]
+        argv_tail, data, expect, env0 = c11.build_input(relexe, sh)
+        env = {k: v for k, v in env0.items()}
+        argv = ["/usr/bin/valgrind", "--tool=helgrind", "-q", "--error-exitcode=77", dbgexe] + argv_tail + ["-n", str(case["n"])]
+        if case["stall"] and len(data) > 8:
+            at = int(env0.get("VERIF_STALL_AT", len(data) // 2))
+            r = core.run_fed(argv, data, [(max(1, at), 1500), (len(data), 0)], env=env, timeout=900)
+        else:
+            with core.TempDir() as td:
+                inp = os.path.join(td, "in")
+                with open(inp, "wb") as f:
+                    f.write(data)
+                r = core.run(argv, env=env, stdin_file=inp, timeout=900)
+        if r.timeout:
+            stats.inconclusive += 1
+            return None
+        bad = None
+        if r.rc == 77 or b"Possible data race" in r.err:
+            bad = "helgrind report:\n" + r.err.decode(errors="replace")[:2500]
+        elif r.rc is not None and r.rc < 0:
+            bad = "killed by signal %d under helgrind: %s" % (-r.rc, r.err[-400:].decode(errors="replace"))
+        elif expect[0] != "rc1" and r.rc != 0:
+            bad = "exit status %s under helgrind: %r" % (r.rc, r.err[-300:])
+        stats.add(core.fp("hg", sh, case["n"], case["stall"]), True,
+                  ["helgrind", sh["kind"], "fam=%s" % sh.get("fam", "-"), "workers=%d" % case["n"]] +
+                  (["stalling-pipe-input"] if case["stall"] else []),
+                  {"detector": "helgrind", "shape": sh, "n": case["n"], "stall": case["stall"]})
+        if bad:
+            return dict(case, what=bad)
+        return None
+    return ev
+
+
 def replay_case(case):
+    if case.get("hg"):
+        exes = core.build_many(["dbg", "rel"])
+        return make_hg_eval(exes["dbg"], exes["rel"])(case, core.Stats())
     exes = core.build_many(["tsan", "rel"])
     return make_eval(exes["tsan"], exes["rel"])(case, core.Stats())
 
 
 def replay_file(path):
-    for _ in range(10):
+    for _ in range(3 if core.load_replay(path).get("hg") else 10):
         r = replay_case(core.load_replay(path))
         if r is not None:
             print("VIOLATION property=%s replay=%s" % (PID, path))
@@ -96,8 +179,12 @@ def replay_file(path):
 def run(tier, seed):
     t0 = time.time()
     exes = core.build_many(["tsan", "rel"])
-    n = 500 if tier == "quick" else 20000
+    n = 400 if tier == "quick" else 20000
     stats, fails = core.hyp_search(strategy(False), make_eval(exes["tsan"], exes["rel"]), n, seed, shrink=False)
+    dbg = core.build("dbg")
+    s2, f2 = core.pmap_cases(make_hg_eval(dbg, exes["rel"]), helgrind_cases(seed, tier))
+    stats.merge(s2)
+    fails = fails + f2
     oc = core.conclude(PID, fails, replay_case, confirm_runs=10)
     core.write_evidence(PID, tier, seed, "exploration", stats, RULE, time.time() - t0,
                         violations=len(oc.violations),
